@@ -30,8 +30,10 @@ Definition b_type := Builtin 0.
 Definition b_isinstance := Builtin 1.
 Definition b_len := Builtin 2.
 
-(* exception class raised by a statement: its __name__ and, unless it lives in builtins, its module *)
-Record exc := { e_name : name; e_mod : option N }.
+(* exception class raised by a statement: its __name__, its module unless it lives in builtins, and
+   whether it is a BaseException that is not an Exception (SystemExit, KeyboardInterrupt,
+   GeneratorExit, user subclasses of BaseException).  The writer records every kind alike. *)
+Record exc := { e_name : name; e_mod : option N; e_base : bool }.
 
 Inductive akind :=
   | AFloat                    (* assert src == pytest.approx(v, abs=.., rel=..) *)
